@@ -184,7 +184,7 @@ def r13_3(ctx: Ctx):
         seeds = [e for e in evs if e.kind == 'call' and e.d.get('callee') is sdg]
         befores = lcalls(evs, 'BeforeMethodStart')
         ends = lcalls(evs, 'OnEndIteration')
-        trips = [e for e in evs if e.kind == 'iter' and e.depth == 0 and e.func is drv]
+        trips = [e for e in evs if e.kind == 'iter' and C.at_level(e, drv) and not _loop_over_listeners(ctx, e.func, e.node)]
         # (a) BeforeMethodStart only on the seeding trip and before the seeding call
         if seeds:
             ok = all(idx[id(b)] < idx[id(seeds[0])] for b in befores)
@@ -192,8 +192,8 @@ def r13_3(ctx: Ctx):
                       'BeforeMethodStart is delivered after the first trial was already made',
                       key=f'{rid}::{drv.short}::before-first')
             # the listener loop in front of the seeding call exists: there must be a listener loop event before it
-            lloops = [e for e in evs[:idx[id(seeds[0])]] if e.kind in ('iter', 'loopexit') and e.depth == 0 and
-                      e.func is drv and _loop_over_listeners(ctx, drv, e.node)]
+            lloops = [e for e in evs[:idx[id(seeds[0])]] if e.kind in ('iter', 'loopexit') and C.at_level(e, drv)
+                      and _loop_over_listeners(ctx, e.func, e.node)]
             ctx.check(bool(lloops), rid, drv.short, drv.loc(seeds[0].node),
                       'a loop over all listeners precedes the seeding routine',
                       'BeforeMethodStart is not delivered to every listener before the first trial',
@@ -204,7 +204,7 @@ def r13_3(ctx: Ctx):
                       key=f'{rid}::{drv.short}::before-once')
         # (b) the list of new trials
         evals = [e for e in evs if e.kind == 'call' and er in e.d['callees'] and not e.d.get('inlined')]
-        appends = [e for e in evs if e.kind == 'call' and e.d['name'] == 'append' and e.depth == 0 and e.func is drv]
+        appends = [e for e in evs if e.kind == 'call' and e.d['name'] == 'append' and C.at_level(e, drv)]
         ok_cnt = len(appends) == len(evals)
         ctx.check(ok_cnt, rid, drv.short, drv.loc(),
                   'one trial is recorded for notification per evaluation',
@@ -226,10 +226,8 @@ def r13_3(ctx: Ctx):
                       f'the trial recorded for notification ({C.fmt(got)}) is not the trial evaluated in that trip',
                       key=f'{rid}::{drv.short}::append-item')
         # (c) OnEndIteration after the loop, with the list and the current result
-        iter_loops = {nn.lineno for nn in ast.walk(drv.node) if isinstance(nn, ast.For)
-                      and not _loop_over_listeners(ctx, drv, nn)}
-        exits = [idx[id(e)] for e in evs if e.kind == 'loopexit' and e.depth == 0 and e.func is drv
-                 and e.d['loop'] in iter_loops]
+        exits = [idx[id(e)] for e in evs if e.kind == 'loopexit' and e.func is drv and e.depth == 0
+                 and not _loop_over_listeners(ctx, drv, e.node)]
         if exits:
             last_trip_end = max(exits)
             ok = all(idx[id(x)] > last_trip_end for x in ends)
@@ -248,17 +246,20 @@ def r13_3(ctx: Ctx):
     ctx.floor(rid, 'paths of the iteration driver', n, 4)
     # structural: notification loops range over the whole listener list, no break/continue/return
     for f in (drv, sd):
-        loops = [nn for nn in ast.walk(f.node) if isinstance(nn, ast.For) and _loop_over_listeners(ctx, f, nn)]
+        loops = []
+        for hf in roles.helpers_of(f):
+            loops += [(hf, nn) for nn in ast.walk(hf.node) if isinstance(nn, ast.For)
+                      and _loop_over_listeners(ctx, hf, nn)]
         ctx.floor(rid, f'listener loops in {f.short}', len(loops), 2 if f is drv else 1)
-        for nn in loops:
+        for hf, nn in loops:
             bad = [x for b in nn.body for x in ast.walk(b) if isinstance(x, (ast.Break, ast.Continue, ast.Return))]
             sliced = isinstance(nn.iter, ast.Subscript)
-            ctx.check(not bad and not sliced, rid, f.short, f.loc(nn), 'the notification loop visits every listener',
+            ctx.check(not bad and not sliced, rid, hf.short, hf.loc(nn), 'the notification loop visits every listener',
                       'a notification loop skips listeners (break/continue/return or a slice of the list)',
-                      key=f'{rid}::{f.short}::loop-complete::{f.loc(nn)}')
+                      key=f'{rid}::{hf.short}::loop-complete::{hf.loc(nn)}')
         # the fresh local list
-    news = [nn for nn in ast.walk(drv.node) if isinstance(nn, ast.Assign) and isinstance(nn.value, ast.List)
-            and not nn.value.elts]
+    news = [nn for hf in roles.helpers_of(drv) for nn in ast.walk(hf.node)
+            if isinstance(nn, ast.Assign) and isinstance(nn.value, ast.List) and not nn.value.elts]
     ctx.check(bool(news), rid, drv.short, drv.loc(), 'the list of new trials is created empty in each call',
               'the list of new trials is not a fresh local list of the call', key=f'{rid}::{drv.short}::fresh-list')
     # (d) Solve: OnMethodStop on every returning path, after refinement, with the current result
@@ -271,8 +272,8 @@ def r13_3(ctx: Ctx):
         ns += 1
         evs = p.events
         stops = lcalls(evs, 'OnMethodStop')
-        loops = [e for e in evs if e.kind in ('iter', 'loopexit') and e.depth == 0 and e.func is sd
-                 and _loop_over_listeners(ctx, sd, e.node)]
+        loops = [e for e in evs if e.kind in ('iter', 'loopexit') and C.at_level(e, sd)
+                 and _loop_over_listeners(ctx, e.func, e.node)]
         ctx.check(bool(loops), rid, sd.short, sd.loc(), 'every returning path of Solve passes the OnMethodStop loop',
                   'a returning path of Solve does not notify listeners of the stop',
                   key=f'{rid}::{sd.short}::stop-loop')
@@ -376,10 +377,11 @@ def r13_4(ctx: Ctx):
               f'also notified (and started again) by every other solver sharing the list',
               key='R13.7::shared-listener-list')
     used = set()
-    for f in (roles.iter_driver, roles.solve_driver):
-        for nn in ast.walk(f.node):
-            if isinstance(nn, ast.For) and _loop_over_listeners(ctx, f, nn):
-                used |= {o for o in pta.expr_pts(f, nn.iter) if o.kind == 'list'}
+    for f0 in (roles.iter_driver, roles.solve_driver):
+        for f in roles.helpers_of(f0):
+            for nn in ast.walk(f.node):
+                if isinstance(nn, ast.For) and _loop_over_listeners(ctx, f, nn):
+                    used |= {o for o in pta.expr_pts(f, nn.iter) if o.kind == 'list'}
     ctx.check(bool(used) and used <= appended, rid, 'Process listeners', roles.iter_driver.loc(),
               'the notification loops iterate the list AddListener appends to',
               f'the notification loops iterate {[u.describe() for u in (used - appended)][:1]}, not the list '
@@ -514,10 +516,14 @@ def r13_6(ctx: Ctx):
         f = ctx.ix.funcs.get(q)
         if f is None or f.kind != 'function' or not f.module.name.startswith('iOpt.output_system'):
             continue
+        own = {roles.fq(h) for h in roles.helpers_of(f)}
         has = any(any(isinstance(c, FuncInfo) and roles.fq(c) in pcs for c in cs)
-                  for (caller, nid), cs in pta.calls.items() if caller == q)
+                  for (caller, nid), cs in pta.calls.items() if caller in own)
         if not has:
             continue
+        if f.name.startswith('_') and not f.name.startswith('__init') and roles.callers_of(f) and \
+                all(roles.fq(f) in {roles.fq(h) for h in roles.helpers_of(c)} for c in roles.callers_of(f)):
+            continue        # a private helper: analysed inlined into its caller(s)
         for p in C.normal_paths(ex.explore(f)):
             for e in p.events:
                 if e.kind == 'call' and any(isinstance(c, FuncInfo) and roles.fq(c) in pcs for c in e.d['callees']):
